@@ -1,8 +1,10 @@
 (* Element and Sequence description round trips (extension of C19; Model/Descr.v el_from_descr / seq_from_descr).
    Definitions used by the statements come first; lemmas follow. *)
 From Coq Require Import String Ascii List Arith ZArith QArith Bool Lia.
+From Coq Require Import DecimalString.
+From Coq Require Decimal DecimalFacts DecimalPos DecimalZ.
 From BB Require Import Base.Names Base.Num Base.PyList Model.Types Model.Blueprint Model.Forge Model.Element
-  Model.PyVal Model.Sequence Model.Descr Proofs.BlueprintFacts Proofs.DescrFacts.
+  Model.PyVal Model.Sequence Model.Descr Proofs.BlueprintFacts Proofs.DescrFacts Proofs.EqFacts.
 Import ListNotations.
 
 (* what an element looks like after the round trip: same channels in the same order, every blueprint without a
@@ -23,3 +25,377 @@ Definition el_json_ok (e : elem) : Prop :=
     (exists z, c = CInt z) /\ (exists b, ckind ch = KBp b /\ bp_json_ok b /\ bp_has_empty_list b = false) /\ flags_ok (cflags ch).
 
 (* ---- lemmas: to be proved (see Props/C19b.v for the exact statements needed) ---- *)
+
+(* ---------- channel ids: str(int) then int(str) ---------- *)
+Section ChannelId.
+Local Open Scope Z_scope.
+
+Definition chars (d : Decimal.uint) : str := list_ascii_of_string (NilEmpty.string_of_uint d).
+
+Lemma digits_val_acc d : forall acc : positive,
+  digits_val (Zpos acc) (chars d) = Some (Zpos (Pos.of_uint_acc d acc)).
+Proof.
+  unfold chars.
+  induction d as [|d IH|d IH|d IH|d IH|d IH|d IH|d IH|d IH|d IH|d IH]; intro acc;
+    cbn [NilEmpty.string_of_uint list_ascii_of_string digits_val Pos.of_uint_acc]; [reflexivity|..];
+    match goal with |- (if is_digit ?c then _ else _) = _ =>
+      change (is_digit c) with true; cbv iota;
+      let n := eval vm_compute in (Z.of_nat (nat_of_ascii c)) in
+      change (Z.of_nat (nat_of_ascii c)) with n end;
+    rewrite <- IH; f_equal; lia.
+Qed.
+
+Lemma digits_val_uint d : digits_val 0 (chars d) = Some (Z.of_N (Pos.of_uint d)).
+Proof.
+  unfold chars.
+  induction d as [|d IH|d IH|d IH|d IH|d IH|d IH|d IH|d IH|d IH|d IH];
+    cbn [NilEmpty.string_of_uint list_ascii_of_string digits_val Pos.of_uint]; [reflexivity|..];
+    match goal with |- (if is_digit ?c then _ else _) = _ =>
+      change (is_digit c) with true; cbv iota;
+      let n := eval vm_compute in (Z.of_nat (nat_of_ascii c)) in
+      change (Z.of_nat (nat_of_ascii c)) with n end;
+    [exact IH | ..]; cbn [Z.of_N]; rewrite <- (digits_val_acc d); reflexivity.
+Qed.
+
+Lemma chars_head d : d <> Decimal.Nil ->
+  exists c t, chars d = c :: t /\ Ascii.eqb c "-"%char = false.
+Proof.
+  intro H. unfold chars. destruct d; [contradiction|..];
+    cbn [NilEmpty.string_of_uint list_ascii_of_string]; eexists; eexists; (split; [reflexivity|reflexivity]).
+Qed.
+
+Lemma to_uint_nonnil p : Pos.to_uint p <> Decimal.Nil.
+Proof. apply DecimalPos.Unsigned.to_uint_nonnil. Qed.
+
+Lemma nilzero_nonnil d : d <> Decimal.Nil -> NilZero.string_of_uint d = NilEmpty.string_of_uint d.
+Proof. destruct d; [contradiction|..]; reflexivity. Qed.
+
+Lemma channel_id_roundtrip : forall z, int_of_str (str_of_chan (CInt z)) = Ok z.
+Proof.
+  intro z. unfold str_of_chan, str_of_Z. destruct z as [|p|p].
+  - reflexivity.
+  - cbn [Z.to_int NilZero.string_of_int]. rewrite nilzero_nonnil by apply to_uint_nonnil.
+    fold (chars (Pos.to_uint p)).
+    destruct (chars_head (Pos.to_uint p) (to_uint_nonnil p)) as (c & t & E & Hc).
+    pose proof (digits_val_uint (Pos.to_uint p)) as D.
+    rewrite DecimalPos.Unsigned.of_to in D. rewrite E in D |- *.
+    unfold int_of_str. rewrite Hc, D. reflexivity.
+  - cbn [Z.to_int NilZero.string_of_int]. rewrite nilzero_nonnil by apply to_uint_nonnil.
+    cbn [list_ascii_of_string]. fold (chars (Pos.to_uint p)).
+    destruct (chars_head (Pos.to_uint p) (to_uint_nonnil p)) as (c & t & E & Hc).
+    pose proof (digits_val_uint (Pos.to_uint p)) as D.
+    rewrite DecimalPos.Unsigned.of_to in D. rewrite E in D |- *.
+    unfold int_of_str. change (Ascii.eqb "-" "-") with true. cbv iota. rewrite D. reflexivity.
+Qed.
+End ChannelId.
+
+(* ---------- flags ---------- *)
+Lemma all_some_map_Some {A} (l : list A) : all_some (map Some l) = Some l.
+Proof. induction l as [|x t IH]; [reflexivity|]. cbn [map all_some]. rewrite IH. reflexivity. Qed.
+
+Lemma flags_roundtrip : forall e c ch l,
+  el_lookup e c = Some ch -> length l = 4%nat -> Forall (fun z => (0 <= z <= 4)%Z) l ->
+  exists vs, flags_of_pv (json_rt (PList (map PInt l))) = Ok vs /\
+             el_add_flags e c vs = (el_set e c (mkCh (ckind ch) (Some l)), None).
+Proof.
+  intros e c ch l HL Hlen HF.
+  destruct (leaves_roundtrip VNone (0, 0)%Q l) as (_ & _ & H).
+  destruct (H HF) as (vs & Hvs & Hmap).
+  exists vs. split; [exact Hvs|].
+  unfold el_add_flags.
+  assert (length vs = 4%nat) as Lvs.
+  { rewrite <- Hlen, <- (map_length flag_int vs), Hmap, map_length. reflexivity. }
+  rewrite Lvs. cbn [Nat.eqb negb]. rewrite Hmap, all_some_map_Some, HL. reflexivity.
+Qed.
+
+(* ---------- the element reader, with its loop named ---------- *)
+Definition el_read_one (acc : elem) (k : str) (cd : pv) : result elem :=
+  do b <- bp_from_descr cd;
+  do c <- int_of_str k;
+  do e1 <- step_res (el_add_bp acc (CInt c) b);
+  (if pd_has "flags" cd
+   then do f <- pd_get "flags" cd; do fl <- flags_of_pv f; step_res (el_add_flags e1 (CInt c) fl)
+   else Ok e1).
+
+Fixpoint el_read (l : list (pv * pv)) (acc : elem) : result elem :=
+  match l with
+  | [] => Ok acc
+  | (PStr k, cd) :: t => do e2 <- el_read_one acc k cd; el_read t e2
+  | _ :: _ => Err EType
+  end.
+
+Lemma el_from_descr_read d : el_from_descr d = do items <- pd_items d; el_read items el_empty.
+Proof.
+  unfold el_from_descr. destruct (pd_items d) as [items|e]; [|reflexivity]. cbn [bind].
+  generalize el_empty. induction items as [|[k cd] t IH]; intro acc; [reflexivity|].
+  cbn [el_read]. destruct k; try reflexivity.
+  unfold el_read_one.
+  destruct (bp_from_descr cd) as [b|e]; [|reflexivity]. cbn [bind].
+  destruct (int_of_str x) as [c|e]; [|reflexivity]. cbn [bind].
+  destruct (step_res (el_add_bp acc (CInt c) b)) as [e1|e]; [|reflexivity]. cbn [bind].
+  match goal with |- bind ?X _ = bind ?X _ => destruct X as [e2|e] end; [|reflexivity].
+  cbn [bind]. apply IH.
+Qed.
+
+(* ---------- the blueprint reader ignores a trailing "flags" entry ---------- *)
+Lemma pd_get_markers_ext b X :
+  pd_get "marker1_abs" (PDict (markers_rt b ++ X)) = Ok (PList (map mspec_pl (am1 b))) /\
+  pd_get "marker2_abs" (PDict (markers_rt b ++ X)) = Ok (PList (map mspec_pl (am2 b))) /\
+  pd_get "marker1_rel" (PDict (markers_rt b ++ X)) = Ok (PList (map mspec_pl (sm1 b))) /\
+  pd_get "marker2_rel" (PDict (markers_rt b ++ X)) = Ok (PList (map mspec_pl (sm2 b))).
+Proof. repeat split; reflexivity. Qed.
+
+Lemma bp_roundtrip_ext b X :
+  bp_json_ok b -> filter seg_filter X = [] ->
+  bp_from_descr (PDict (segs_rt 1 (names b) (funs b) (args b) (durs b) ++ markers_rt b ++ X)) = Ok (set_sr b VNone).
+Proof.
+  intros ((Hf & Ha & Hd & H1 & H2 & Hu) & HN & Hok) HX.
+  rewrite bp_from_descr_read. unfold read_bp.
+  cbn [pd_items bind]. rewrite !filter_app, filter_segs_rt, filter_markers_rt, HX, !app_nil_r.
+  destruct (read_segs_rt (names b) 1 0%Z (funs b) (args b) (durs b) bp_empty) as (s1 & s2 & E);
+    try assumption; try reflexivity; try lia.
+  rewrite E. cbn [bind].
+  rewrite pd_get_behind_segs by exact marker_key_1a.
+  rewrite pd_get_behind_segs by exact marker_key_2a.
+  rewrite pd_get_behind_segs by exact marker_key_1r.
+  rewrite pd_get_behind_segs by exact marker_key_2r.
+  destruct (pd_get_markers_ext b X) as (G1 & G2 & G3 & G4).
+  rewrite G1. cbn [bind list_of_pv]. rewrite mapM_mspec_pl. cbn [bind].
+  rewrite G2. cbn [bind list_of_pv]. rewrite mapM_mspec_pl. cbn [bind].
+  rewrite G3. cbn [bind list_of_pv]. rewrite mapM_mspec_pl. cbn [bind].
+  rewrite G4. cbn [bind list_of_pv]. rewrite mapM_mspec_pl. cbn [bind].
+  unfold set_sm2, set_sm1, set_am2, set_am1, set_sr, bp_empty.
+  cbn [names funs args durs sm1 sm2 am1 am2 sr app]. rewrite <- Hu. reflexivity.
+Qed.
+
+Lemma flags_key j : str_eqb (S_ "flags") (seg_key j) = false.
+Proof. apply seg_key_head. discriminate. Qed.
+
+Lemma existsb_segs_rt_false (key : str) ns : forall k fs ars ds,
+  (forall j, str_eqb key (seg_key j) = false) ->
+  existsb (fun kv : pv * pv => pv_str_eqb (fst kv) key) (segs_rt k ns fs ars ds) = false.
+Proof.
+  induction ns as [|n ns IH]; intros k fs ars ds H; [reflexivity|].
+  destruct fs as [|f fs]; [reflexivity|]. destruct ars as [|a ars]; [reflexivity|].
+  destruct ds as [|d ds]; [reflexivity|].
+  cbn [segs_rt existsb fst pv_str_eqb]. rewrite H. now apply IH.
+Qed.
+
+Definition flags_entry (l : list Z) : pv * pv := (pstr "flags", PList (map json_rt (map PInt l))).
+
+Lemma pd_has_flags_none b :
+  pd_has "flags" (PDict (segs_rt 1 (names b) (funs b) (args b) (durs b) ++ markers_rt b ++ [])) = false.
+Proof.
+  unfold pd_has. rewrite existsb_app, existsb_segs_rt_false by exact flags_key. reflexivity.
+Qed.
+
+Lemma pd_has_flags_some b l :
+  pd_has "flags" (PDict (segs_rt 1 (names b) (funs b) (args b) (durs b) ++ markers_rt b ++ [flags_entry l])) = true.
+Proof.
+  unfold pd_has. rewrite existsb_app, existsb_segs_rt_false by exact flags_key. reflexivity.
+Qed.
+
+Lemma pd_get_flags_some b l :
+  pd_get "flags" (PDict (segs_rt 1 (names b) (funs b) (args b) (durs b) ++ markers_rt b ++ [flags_entry l]))
+  = Ok (PList (map json_rt (map PInt l))).
+Proof.
+  rewrite pd_get_behind_segs by exact flags_key. reflexivity.
+Qed.
+
+(* the two shapes of a channel description after json.load *)
+Definition chan_rt (b : bp) (fl : option (list Z)) : pv :=
+  PDict (segs_rt 1 (names b) (funs b) (args b) (durs b) ++ markers_rt b ++
+         match fl with None => [] | Some l => [flags_entry l] end).
+
+Lemma json_rt_chan_none b : json_rt (bp_descr b) = chan_rt b None.
+Proof. rewrite json_rt_bp_descr. unfold chan_rt. rewrite app_nil_r. reflexivity. Qed.
+
+Lemma json_rt_chan_some b d l : bp_descr b = PDict d ->
+  json_rt (PDict (d ++ [(pstr "flags", PList (map PInt l))])) = chan_rt b (Some l).
+Proof.
+  intro E. pose proof (json_rt_bp_descr b) as J. rewrite E in J. cbn [json_rt] in J.
+  injection J as J. cbn [json_rt]. rewrite map_app, J. unfold chan_rt. rewrite <- app_assoc. reflexivity.
+Qed.
+
+(* ---------- association lists keyed by channels ---------- *)
+Lemma chan_eqb_refl c : chan_eqb c c = true.
+Proof. now apply chan_eqb_eq. Qed.
+
+Lemma aset_new c (x : chentry) : forall l, ~ In c (map fst l) -> aset chan_eqb c x l = l ++ [(c, x)].
+Proof.
+  induction l as [|[c' x'] t IH]; intro H; [reflexivity|].
+  cbn [aset app]. destruct (chan_eqb c c') eqn:E.
+  - apply chan_eqb_eq in E. subst c'. exfalso. apply H. left. reflexivity.
+  - rewrite IH; [reflexivity|]. intro Hin. apply H. right. exact Hin.
+Qed.
+
+Lemma aset_last c (x y : chentry) : forall l, ~ In c (map fst l) ->
+  aset chan_eqb c y (l ++ [(c, x)]) = l ++ [(c, y)].
+Proof.
+  induction l as [|[c' x'] t IH]; intro H.
+  - cbn [aset app]. rewrite chan_eqb_refl. reflexivity.
+  - cbn [aset app]. destruct (chan_eqb c c') eqn:E.
+    + apply chan_eqb_eq in E. subst c'. exfalso. apply H. left. reflexivity.
+    + rewrite IH; [reflexivity|]. intro Hin. apply H. right. exact Hin.
+Qed.
+
+Lemma alookup_last c (x : chentry) : forall l, ~ In c (map fst l) ->
+  alookup chan_eqb c (l ++ [(c, x)]) = Some x.
+Proof.
+  induction l as [|[c' x'] t IH]; intro H.
+  - cbn [alookup app]. rewrite chan_eqb_refl. reflexivity.
+  - cbn [alookup app]. destruct (chan_eqb c c') eqn:E.
+    + apply chan_eqb_eq in E. subst c'. exfalso. apply H. left. reflexivity.
+    + apply IH. intro Hin. apply H. right. exact Hin.
+Qed.
+
+Lemma map_fst_strip l : map fst (map strip_sr_entry l) = map fst l.
+Proof.
+  rewrite map_map. apply map_ext. intros [c ch]. unfold strip_sr_entry. cbn [fst snd].
+  destruct (ckind ch); reflexivity.
+Qed.
+
+Lemma Inv_set_sr b v : Inv b -> Inv (set_sr b v).
+Proof. intro H. exact H. Qed.
+
+(* ---------- one channel ---------- *)
+Lemma el_read_one_ok done z b fl :
+  ~ In (CInt z) (map fst done) -> bp_json_ok b -> bp_has_empty_list b = false -> flags_ok fl ->
+  el_read_one (mkEl (map strip_sr_entry done)) (str_of_chan (CInt z)) (chan_rt b fl)
+  = Ok (mkEl (map strip_sr_entry done ++ [(CInt z, mkCh (KBp (set_sr b VNone)) fl)])).
+Proof.
+  intros Hnew Hok Hne Hfl. unfold el_read_one.
+  assert (bp_from_descr (chan_rt b fl) = Ok (set_sr b VNone)) as ->.
+  { unfold chan_rt. apply bp_roundtrip_ext; [exact Hok|]. destruct fl; reflexivity. }
+  cbn [bind]. rewrite channel_id_roundtrip. cbn [bind].
+  unfold el_add_bp.
+  assert (bp_has_empty_list (set_sr b VNone) = false) as -> by exact Hne.
+  assert (bp_copy (set_sr b VNone) = set_sr b VNone) as ->.
+  { apply copy_eq. apply Inv_set_sr. apply Hok. }
+  unfold ok, step_res, el_set. cbn [edata bind].
+  assert (~ In (CInt z) (map fst (map strip_sr_entry done))) as Hnew' by (rewrite map_fst_strip; exact Hnew).
+  rewrite aset_new by exact Hnew'.
+  destruct fl as [l|].
+  - unfold chan_rt. rewrite pd_has_flags_some, pd_get_flags_some. cbn [bind].
+    destruct Hfl as [Hlen HF].
+    set (e1 := mkEl (map strip_sr_entry done ++ [(CInt z, mkCh (KBp (set_sr b VNone)) None)])).
+    destruct (flags_roundtrip e1 (CInt z) (mkCh (KBp (set_sr b VNone)) None) l) as (vs & Hvs & Hadd);
+      [unfold el_lookup, e1; cbn [edata]; apply alookup_last; exact Hnew' | exact Hlen | exact HF |].
+    cbn [json_rt] in Hvs. rewrite Hvs. cbn [bind]. rewrite Hadd. cbn [step_res ckind].
+    unfold el_set, e1. cbn [edata]. rewrite aset_last by exact Hnew'. reflexivity.
+  - unfold chan_rt. rewrite pd_has_flags_none. reflexivity.
+Qed.
+
+(* ---------- the loop over the channels ---------- *)
+Definition descr_entry (p : chan * chentry) : result (pv * pv) :=
+  let key := PStr (str_of_chan (fst p)) in
+  match ckind (snd p), cflags (snd p) with
+  | KBp b, None => Ok (key, bp_descr b)
+  | KBp b, Some fl =>
+      match bp_descr b with
+      | PDict d => Ok (key, PDict (d ++ [(pstr "flags", PList (map PInt fl))]))
+      | x => Ok (key, x)
+      end
+  | KArr _ _, None => Ok (key, pstr "array")
+  | KArr _ _, Some _ => Err EType
+  end.
+
+Lemma el_descr_unfold e : el_descr e = do l <- mapM descr_entry (edata e); Ok (PDict l).
+Proof. reflexivity. Qed.
+
+Definition jr (kv : pv * pv) : pv * pv := (json_rt (fst kv), json_rt (snd kv)).
+
+Definition entry_ok (c : chan) (ch : chentry) : Prop :=
+  (exists z, c = CInt z) /\ (exists b, ckind ch = KBp b /\ bp_json_ok b /\ bp_has_empty_list b = false) /\ flags_ok (cflags ch).
+
+Lemma descr_entry_ok z ch b : ckind ch = KBp b ->
+  exists v, descr_entry (CInt z, ch) = Ok (PStr (str_of_chan (CInt z)), v) /\ json_rt v = chan_rt b (cflags ch).
+Proof.
+  intro Hk. unfold descr_entry. cbn [fst snd]. rewrite Hk. destruct (cflags ch) as [l|].
+  - unfold bp_descr at 1. eexists. split; [reflexivity|]. apply json_rt_chan_some. reflexivity.
+  - eexists. split; [reflexivity|]. apply json_rt_chan_none.
+Qed.
+
+Lemma el_read_loop : forall entries done l,
+  mapM descr_entry entries = Ok l ->
+  NoDup (map fst (done ++ entries)) ->
+  (forall c ch, In (c, ch) entries -> entry_ok c ch) ->
+  el_read (map jr l) (mkEl (map strip_sr_entry done)) = Ok (mkEl (map strip_sr_entry (done ++ entries))).
+Proof.
+  induction entries as [|[c ch] t IH]; intros done l HM ND Hok.
+  - cbn [mapM] in HM. injection HM as <-. rewrite app_nil_r. reflexivity.
+  - destruct (Hok c ch (or_introl eq_refl)) as ([z ->] & (b & Hk & Hb & Hne) & Hfl).
+    destruct (descr_entry_ok z ch b Hk) as (v & Hv & Hjv).
+    cbn [mapM] in HM. rewrite Hv in HM. cbn [bind] in HM.
+    destruct (mapM descr_entry t) as [r|e] eqn:Er; [|discriminate]. cbn [bind] in HM. injection HM as <-.
+    cbn [map]. unfold jr at 1. cbn [fst snd json_rt el_read]. rewrite Hjv.
+    assert (~ In (CInt z) (map fst done)) as Hnew.
+    { rewrite map_app in ND. apply NoDup_remove_2 in ND. intro Hin. apply ND. apply in_or_app. left. exact Hin. }
+    change (str_of_Z z) with (str_of_chan (CInt z)). rewrite el_read_one_ok by assumption. cbn [bind].
+    assert (map strip_sr_entry done ++ [(CInt z, mkCh (KBp (set_sr b VNone)) (cflags ch))]
+            = map strip_sr_entry (done ++ [(CInt z, ch)])) as ->.
+    { rewrite map_app. cbn [map]. unfold strip_sr_entry at 3. cbn [fst snd]. rewrite Hk. reflexivity. }
+    rewrite (IH (done ++ [(CInt z, ch)]) r eq_refl).
+    + rewrite <- app_assoc. reflexivity.
+    + rewrite <- app_assoc. exact ND.
+    + intros c' ch' Hin. apply Hok. right. exact Hin.
+Qed.
+
+Lemma element_roundtrip : forall e d,
+  el_json_ok e -> el_descr e = Ok d ->
+  el_from_descr (json_rt d) = Ok (mkEl (map strip_sr_entry (edata e))).
+Proof.
+  intros e d [ND Hok] Hd. rewrite el_descr_unfold in Hd.
+  destruct (mapM descr_entry (edata e)) as [l|er] eqn:El; [|discriminate]. cbn [bind] in Hd. injection Hd as <-.
+  rewrite el_from_descr_read. cbn [json_rt pd_items bind].
+  exact (el_read_loop (edata e) [] l El ND Hok).
+Qed.
+
+(* ---------- consequences ---------- *)
+Lemma descr_entry_strip p : descr_entry (strip_sr_entry p) = descr_entry p.
+Proof.
+  destruct p as [c ch]. unfold strip_sr_entry. cbn [fst snd].
+  destruct (ckind ch) as [b|arrs asr] eqn:Hk; [|reflexivity].
+  unfold descr_entry. cbn [fst snd ckind cflags]. rewrite Hk. reflexivity.
+Qed.
+
+Lemma mapM_ext {A B} (f g : A -> result B) l : (forall x, f x = g x) -> mapM f l = mapM g l.
+Proof. intro H. induction l as [|x t IH]; [reflexivity|]. cbn [mapM]. rewrite H, IH. reflexivity. Qed.
+
+Lemma mapM_map {A B C} (f : B -> result C) (g : A -> B) l : mapM f (map g l) = mapM (fun x => f (g x)) l.
+Proof. induction l as [|x t IH]; [reflexivity|]. cbn [map mapM]. rewrite IH. reflexivity. Qed.
+
+Lemma el_descr_strip e : el_descr (mkEl (map strip_sr_entry (edata e))) = el_descr e.
+Proof.
+  rewrite !el_descr_unfold. cbn [edata]. rewrite mapM_map.
+  rewrite (mapM_ext _ descr_entry) by apply descr_entry_strip. reflexivity.
+Qed.
+
+Lemma el_eqb_strip e : el_json_ok e -> el_eqb e (mkEl (map strip_sr_entry (edata e))) = Ok true.
+Proof.
+  intros [ND Hok].
+  assert (forall c ch, In (c, ch) (edata e) -> exists x, ckind ch = KBp x) as Ha.
+  { intros c ch Hin. destruct (Hok c ch Hin) as (_ & (b & Hk & _) & _). exists b. exact Hk. }
+  apply el_eq_iff.
+  - exact Ha.
+  - cbn [edata]. intros c ch Hin. apply in_map_iff in Hin as ([c0 ch0] & E & Hin0).
+    destruct (Ha c0 ch0 Hin0) as [x Hx]. unfold strip_sr_entry in E. cbn [fst snd] in E. rewrite Hx in E.
+    injection E as <- <-. eexists. reflexivity.
+  - exact ND.
+  - cbn [edata]. rewrite map_fst_strip. exact ND.
+  - split; [cbn [edata]; rewrite map_length; reflexivity|].
+    intros c ch Hin. destruct (Ha c ch Hin) as [x Hx].
+    exists (mkCh (KBp (set_sr x VNone)) (cflags ch)), x, (set_sr x VNone).
+    split; [|split; [exact Hx|split; [reflexivity|split; [apply bp_eqb_set_sr | apply flags_eqb_refl]]]].
+    unfold el_lookup. cbn [edata]. apply alookup_NoDup; [rewrite map_fst_strip; exact ND|].
+    apply in_map_iff. exists (c, ch). split; [|exact Hin].
+    unfold strip_sr_entry. cbn [fst snd]. rewrite Hx. reflexivity.
+Qed.
+
+Lemma element_roundtrip_observations : forall e d e',
+  el_json_ok e -> el_descr e = Ok d -> el_from_descr (json_rt d) = Ok e' ->
+  el_eqb e e' = Ok true /\ el_descr e' = Ok d.
+Proof.
+  intros e d e' Hok Hd He'. rewrite (element_roundtrip e d Hok Hd) in He'. injection He' as <-.
+  split; [apply el_eqb_strip; exact Hok|]. rewrite el_descr_strip. exact Hd.
+Qed.
